@@ -40,8 +40,9 @@ type c15Config struct {
 	Env      string `json:"env"`
 	BuiltIn  string `json:"env_while_building,omitempty"`                                // when set, the stack is built in this environment and Env is set afterwards
 	Sibling  bool   `json:"middleware_list_shared_with_a_sibling_application,omitempty"` // the handlers before Recovery come from one slice with spare capacity that is handed to Handlers() of this application and, afterwards, of a second one that then adds middleware of its own
-	CustomRH bool   `json:"custom_return_handler_mapped,omitempty"`                      // the application maps a ReturnHandler of its own (it renders whatever handlers return as a 200 envelope); Recovery's 500 is not a handler's return value
-	Reconf   bool   `json:"middleware_replaced_after_first_requests,omitempty"`          // the application first runs with as many do-nothing middleware, serves both routes, and only then gets the real stack through Handlers()
+	FastDep  bool   `json:"unresolvable_handler_has_its_own_fast_invoker,omitempty"`
+	CustomRH bool   `json:"custom_return_handler_mapped,omitempty"`             // the application maps a ReturnHandler of its own (it renders whatever handlers return as a 200 envelope); Recovery's 500 is not a handler's return value
+	Reconf   bool   `json:"middleware_replaced_after_first_requests,omitempty"` // the application first runs with as many do-nothing middleware, serves both routes, and only then gets the real stack through Handlers()
 }
 
 func (c c15Config) marker() string {
@@ -78,6 +79,14 @@ func c15OtherKind(v string) string {
 	return "error"
 }
 
+// c15FastDep is a handler type with a fast invoker of its own whose only parameter cannot be resolved.
+type c15FastDep func(*c15Unmapped)
+
+func (f c15FastDep) Invoke(args []interface{}) ([]reflect.Value, error) {
+	f(args[0].(*c15Unmapped))
+	return nil, nil
+}
+
 type c15World struct {
 	f      *flamego.Flame
 	events []string
@@ -110,6 +119,9 @@ func c15Build(c c15Config) *c15World {
 			}
 			return func(ctx flamego.Context) { w.events = append(w.events, fmt.Sprintf("between%d", i)) }
 		case i == c.P:
+			if c.Phase == "unresolved-dependency" && c.FastDep {
+				return c15FastDep(func(u *c15Unmapped) { w.events = append(w.events, "BODY-RAN-WITHOUT-DEPENDENCY") })
+			}
 			if c.Phase == "unresolved-dependency" {
 				return func(ctx flamego.Context, u *c15Unmapped) { w.events = append(w.events, "BODY-RAN-WITHOUT-DEPENDENCY") }
 			}
@@ -386,6 +398,9 @@ func c15Configs(thorough bool) []c15Config {
 								out = append(out, c15Config{N: n, R: r, P: p, Phase: ph, Between: bm, Value: v, Style: st})
 								if st == "use" && (v == "string" || v == "struct") {
 									out = append(out, c15Config{N: n, R: r, P: p, Phase: ph, Between: bm, Value: v, Style: st, Reconf: true})
+								}
+								if ph == "unresolved-dependency" {
+									out = append(out, c15Config{N: n, R: r, P: p, Phase: ph, Between: bm, Value: v, Style: st, FastDep: true})
 								}
 								if st == "use" && r >= 1 && (v == "string" || v == "struct") && (thorough || n <= 3) {
 									out = append(out, c15Config{N: n, R: r, P: p, Phase: ph, Between: bm, Value: v, Style: st, Sibling: true})
